@@ -35,9 +35,15 @@ def same_length_variant(rng, version):
 
 
 def write_tree(sc, root, version):
+    """-> extra command-line arguments (the version's own typeshare.toml, if it has one)"""
     shutil.rmtree(sc.path(root), ignore_errors=True)
+    extra = []
     for crate, text in version.items():
-        sc.write("%s/%s/src/lib.rs" % (root, crate), text)
+        if crate == "__toml__":
+            extra = ["-c", sc.write("%s/typeshare.toml" % root, text)]
+        else:
+            sc.write("%s/%s/src/lib.rs" % (root, crate), text)
+    return extra
 
 
 def outputs_of(dirpath):
@@ -84,6 +90,15 @@ def run(check):
         if samelen:
             hist.insert(1, samelen[0])        # v0 -> its equal-length twin -> …
         hist += extra                         # … -> v0 + last / first item -> v0
+        if lang == "swift" and multi:
+            # the shared Codable.swift depends on the configuration only: a unit type in the sources and two settings of
+            # swift.codablevoid_constraints, the second one giving a *shorter* file
+            vu = dict(versions[0]); vu[c0] = versions[0][c0] + "\n#[typeshare]\npub struct UnitUser {\n    pub u: (),\n}\n"
+            va = dict(vu); va["__toml__"] = "[swift]\ncodablevoid_constraints = [\"Equatable\", \"Hashable\"]\n"
+            vb = dict(vu); vb["__toml__"] = "[swift]\ncodablevoid_constraints = [\"Equatable\"]\n"
+            versions += [va, vb]
+            ia, ib = len(versions) - 2, len(versions) - 1
+            hist += [ia, ib, ib, ia]
         if rng.random() < 0.7:
             hist.insert(rng.randint(1, len(hist)), hist[rng.randrange(len(hist))])     # an exact repetition
         check.saw((lang, multi, tuple(hist), json.dumps(versions, sort_keys=True)), nontrivial=len(set(hist)) < len(hist))
@@ -92,19 +107,19 @@ def run(check):
             # reference outputs: each version generated into an empty location
             ref = {}
             for vi in sorted(set(hist)):
-                write_tree(sc, "ws", versions[vi])
+                cfg_args = write_tree(sc, "ws", versions[vi])
                 tgt = ["-d", sc.path("ref%d" % vi)] if multi else ["-o", sc.path("ref%d/out.%s" % (vi, EXT[lang]))]
-                r = run_cli(["--lang", lang] + tgt + lang_args(lang) + [sc.path("ws")], cwd=sc.dir)
+                r = run_cli(["--lang", lang] + tgt + lang_args(lang) + cfg_args + [sc.path("ws")], cwd=sc.dir)
                 ref[vi] = (r["rc"], outputs_of(sc.path("ref%d" % vi)))
             fs_model = []          # [path, bytes, mtime] with abstract times = step index
             real_prev = {}
             for step, vi in enumerate(hist):
-                write_tree(sc, "ws", versions[vi])
+                cfg_args = write_tree(sc, "ws", versions[vi])
                 time.sleep(0.02)
                 tgt = ["-d", sc.path("out")] if multi else ["-o", sc.path("out/out.%s" % EXT[lang])]
                 if not multi:
                     os.makedirs(sc.path("out"), exist_ok=True)
-                r = run_cli(["--lang", lang] + tgt + lang_args(lang) + [sc.path("ws")], cwd=sc.dir)
+                r = run_cli(["--lang", lang] + tgt + lang_args(lang) + cfg_args + [sc.path("ws")], cwd=sc.dir)
                 real = outputs_of(sc.path("out"))
                 rc_ref, outs_ref = ref[vi]
                 # the model: Writer.run on the reference outputs (in path order = crate order)
